@@ -99,6 +99,9 @@ def bounded(ctx):
                 # the random filling): whatever the verdict, it is asked again at the rotations that move the origin through
                 # the structure -- a class that accepts it only at some rotation is what this property excludes
                 refused.append(label)
+                rx_ = cls._get_regex().regex
+                if sum(1 for j_ in range(len(s)) if rx_.match(s + s, j_, j_ + len(s))) != 1:
+                    continue          # outside the hypothesis: the structure occurs more than once (the filling added a site)
                 for r in (1, 2, len(s) // 3, len(s) // 2, len(s) - 2, len(s) - 1):
                     evals += 1
                     obs = be.observe_entity(cls(CircularRecord(Seq(s[-r:] + s[:-r]), id="r")))
